@@ -10,6 +10,7 @@ def run(tier, seed, limit=0):
     if limit:
         scs = scs[:limit]
     chk.run_scenarios(scs, "Trace_VscRand")
+    chk.run_mc("B_Walk", {"MaxW": 4 if tier == "quick" else 6}, label="cumulative-weight walk |= w_i/total")
     return chk.finish(LEVEL, "dist statements over a 3-bit field (values, ranges, zero weights, a weight read from a non-random field, "
                       "accompanying hard constraints): pin-probe truth table = DistSupport /\\ Sol (zero-weight and unlisted values "
                       "are rows that must fail) and EXHAUSTIVE enumeration of every draw sequence of randomize() giving the exact "
